@@ -11,6 +11,7 @@ def textbook(rule, m, k, r):
             "KApproval": Fraction(int(r <= k)), "Harmonic": Fraction(1, r)}[rule]
 
 class C10(Prop):
+    layouts = True
     translators = ['scoring']   # weights, winners, break_tie regenerated from deterministic_scoring.py / utils.py on every run
     pid = "C10"
     sources = ["socialchoicekit/deterministic_scoring.py", "socialchoicekit/utils.py"]
